@@ -15,5 +15,5 @@ for f in mutants/$PAT.patch seeded/$PAT/patch.diff; do
   else
     echo "MISSED $NAME $PROP $(echo "$OUT" | grep -E 'quick:|patch failed|HARNESS' | head -2 | tr '\n' ' ' | cut -c1-200)"
   fi
-  rm -rf /tmp/vsim-mut-*-out
+  SCR=$(echo "$OUT" | sed -n 's/.*scratch=//p' | head -1); [ -n "$SCR" ] && rm -rf "$SCR"
 done
